@@ -32,3 +32,62 @@ package carv1
 //@   ensures single_root [C12]: h.Version == other.Version && len(h.Roots) == 1 && len(other.Roots) == 1 ==> result == (h.Roots[0] == other.Roots[0])
 //@   ensures every_root_present [C12]: result ==> forall(i, 0, len(h.Roots), exists(j, 0, len(other.Roots), other.Roots[j] == h.Roots[i]))
 //@   ensures mismatch_rejected [C12]: h.Version != other.Version || len(h.Roots) != len(other.Roots) ==> !result
+
+// The package's own CARv1 reader and loaders (C02): a block is returned only after its bytes hash to its CID under
+// the CID's own prefix; a loader returns nil only when the reader reported a clean end, and every block it read was
+// handed to the store.
+
+//@ func (*CarReader).Next
+//@   modifies pos(cr.r)
+//@   let c, data, rerr := call[util.ReadNode#0]
+//@   let hashed, serr := call[Prefix.Sum#0]
+//@   call[util.ReadNode#0] assert own_stream_and_limits [C02,C09]: ref(arg0) == ref(cr.r) && arg1 == cr.zeroLenAsEOF && arg2 == cr.maxAllowedSectionSize
+//@   call[Prefix.Sum#0] assert hashes_with_the_cids_own_prefix [C02]: arg0.Version == pversion(c) && arg0.Codec == pcodec(c) && arg0.MhType == mhtype(c) && arg0.MhLength == mhlen(c) && ref(arg1) == ref(data)
+//@   ensures integrity [C02]: err == nil ==> hashok(blockcid(result0), blockdata(result0))
+//@   ensures same_values [C02]: err == nil ==> blockcid(result0) == ref(c) && blockdata(result0) == ref(data)
+//@   ensures eof_only_from_the_section_reader [C02]: err == io.EOF ==> rerr == io.EOF
+//@   ensures read_error_propagates [C02]: rerr != nil ==> err == rerr
+
+//@ func NewCarReaderWithoutDefaults
+//@   let ch, herr := call[ReadHeader#0]
+//@   call[ReadHeader#0] assert same_stream_and_limit [C02,C09]: ref(arg0) == ref(r) && arg1 == maxAllowedHeaderSize
+//@   ensures only_version_1_with_roots [C02,C09]: err == nil ==> herr == nil && ch.Version == 1 && len(ch.Roots) > 0 && result0 != nil
+//@   ensures header_error_propagates [C02,C09]: herr != nil ==> err == herr && result0 == nil
+//@   ensures configured [C02,C09]: err == nil ==> ref(result0.r) == ref(r) && result0.Header == ch && result0.zeroLenAsEOF == zeroLenAsEOF && result0.maxAllowedSectionSize == maxAllowedSectionSize
+
+//@ func NewCarReader
+//@   let cr, oerr := call[NewCarReaderWithoutDefaults#0]
+//@   call[NewCarReaderWithoutDefaults#0] assert same_stream_default_limits [C02,C09]: ref(arg0) == ref(r) && !arg1 && arg2 == 33554432 && arg3 == 8388608
+//@   ensures delegates [C02]: result0 == cr && err == oerr
+
+//@ func NewCarReaderWithZeroLengthSectionAsEOF
+//@   let cr, oerr := call[NewCarReaderWithoutDefaults#0]
+//@   call[NewCarReaderWithoutDefaults#0] assert same_stream_default_limits [C02,C09]: ref(arg0) == ref(r) && arg1 && arg2 == 33554432 && arg3 == 8388608
+//@   ensures delegates [C02]: result0 == cr && err == oerr
+
+//@ func LoadCar
+//@   let cr, nerr := call[NewCarReader#0]
+//@   call[NewCarReader#0] assert same_stream [C02]: ref(arg0) == ref(r)
+//@   call[loadCarFast#0] assert same_reader_and_store [C02]: ref(arg2) == ref(cr)
+//@   call[loadCarSlow#0] assert same_reader_and_store [C02]: ref(arg1) == ref(s) && ref(arg2) == ref(cr)
+//@   ensures open_error_propagates [C02]: nerr != nil ==> err == nerr && result0 == nil
+
+//@ func loadCarFast
+//@   let blk, nerr := call[CarReader.Next#0]
+//@   let ferr := call[batchStore.PutMany#0]
+//@   let perr := call[batchStore.PutMany#1]
+//@   ensures nil_only_after_a_clean_end [C02]: err == nil ==> nerr == io.EOF && result0 == cr.Header
+//@   ensures reader_error_is_reported [C02]: nerr != nil && nerr != io.EOF ==> err == nerr && result0 == nil
+//@   call[append#0] assert every_block_read_is_batched [C02]: ref(arg0) == ref(buf) && len(arg1) == 1 && arg1[0] == blk && nerr == nil
+//@   call[batchStore.PutMany#0] assert final_batch_is_flushed_whole [C02]: ref(arg0) == ref(s) && ref(arg2) == ref(buf) && len(arg2) == len(buf)
+//@   call[batchStore.PutMany#1] assert full_batch_is_flushed_whole [C02]: ref(arg0) == ref(s) && ref(arg2) == ref(buf) && len(arg2) == len(buf)
+//@   check pending_blocks_are_flushed_before_a_nil_return [C02]: err == nil && len(buf) > 0 ==> ferr == nil
+//@   loop[0] step batch_restarts_only_after_a_flush [C02]: len(buf) == 0 || len(buf) == athead(0, len(buf)) + 1
+
+//@ func loadCarSlow
+//@   let blk, nerr := call[CarReader.Next#0]
+//@   let perr := call[Store.Put#0]
+//@   ensures nil_only_after_a_clean_end [C02]: err == nil ==> nerr == io.EOF && result0 == cr.Header
+//@   ensures reader_error_is_reported [C02]: nerr != nil && nerr != io.EOF ==> err == nerr && result0 == nil
+//@   call[Store.Put#0] assert stores_the_block_just_read [C02]: ref(arg0) == ref(s) && arg2 == blk && nerr == nil
+//@   loop[0] step continues_only_after_a_successful_put [C02]: perr == nil
